@@ -31,6 +31,21 @@ var commonAssumptions = []string{
 }
 
 var plans = map[string]Plan{
+	"C17": {
+		Stages: []Stage{
+			{Harness: "hcli", Config: "default", Quick: 2400, Thorough: 80000, QuickSec: 75, ThoroughSec: 1500, MemGB: 8},
+		},
+		Rule: "one run = a tape-drawn command line (flags from the documented set in any order, combined shorts, --flag=value, --, sometimes an unknown flag, a missing value, a bad --argjson, a missing --raw-file/-f file) with 0..4 inputs, each decodable JSON, undecodable under the probe, missing, a directory, unreadable (EACCES) or failing with EIO at open, and a program that succeeds, raises on some inputs or does not compile; the whole of fq runs in-process on the simulated OS (half the runs with short/zero reads and latency on the disk); oracles: (1) exit-status model 2 > 3 > 4 > 5 > 0 over the inputs actually consumed, (2) independence: stdout, stderr and status of the n-input run equal the concatenation/combination of the n single-input runs (slurp: equals the slurp of the good inputs), (3) jq modes (-n -r -j -c -s --raw-output0 --arg --argjson --raw-file --) against the gojq library evaluating the same program on the same JSON; distinct = distinct (argv, input contents); every case is non-trivial",
+		Real: []string{"the whole of fq through interp.New/Main/Stop (args.jq, options.jq, init.jq, interp.jq, decode, display)", "internal/ctxstack, ctxreadseeker, aheadreadseeker, progressreadseeker under the file stack"},
+		Stub: []string{"operating system: file system and disk (simos), terminal, arguments, environment", "scheduler", "reference engine for oracle 3: the gojq library"},
+		Assumptions: append([]string{
+			"raw input (-R) is excluded from the independence oracle: like jq it reads all files as one stream of lines",
+			"an undecodable input under a single forced format (-d json) yields a tree with the error attached and status 0, so it counts as decodable",
+			"without inputs fq reads standard input; such cases are generated with -n only",
+			"EIO at open is not assigned a class by the statement: only a non-zero status and unaffected other inputs are required",
+		}, commonAssumptions...),
+		ExpectProbes: []string{"arg_error_cases", "compile_error_cases", "multi_input_cases", "independence_checked", "slurp_independence_checked", "jq_modes_checked", "input_missing", "input_directory", "input_eacces", "input_eio", "input_undecodable", "disk_short_read"},
+	},
 	"C01": {
 		Stages: []Stage{
 			{Harness: "hio", Config: "benign", Quick: 30000, Thorough: 3000000, QuickSec: 70, ThoroughSec: 1200},
